@@ -3,6 +3,7 @@ mod proj;
 mod util;
 mod tables;
 mod c04;
+mod c17;
 mod laws;
 mod pipeline;
 mod rules;
@@ -38,6 +39,8 @@ fn main() {
             });
             println!("accepted {ok} rejected {bad}");
         }
+        ("replay", "C17") => c17::replay(),
+        ("faults", _) => c17::print_counts(),
         ("replay", "pipeline") => pipeline::replay_schedules(),
         ("record", "C02") | ("record", "C06") | ("record", "C07") | ("record", "C08") | ("record", "C14") =>
             laws::record(id, &args[3], &args[4], args.get(5).and_then(|s| s.parse().ok()).unwrap_or(5)),
